@@ -54,6 +54,7 @@ type Exec struct {
 	onceDone map[*Obj]map[string]bool
 	isSnapshot bool
 	cloner   *cloner
+	intUFApps map[string][]*intUFApp
 }
 
 type ufApp struct {
